@@ -89,6 +89,18 @@ type RDir struct {
 	Observe func(ev *Ev)
 
 	handles sync.Map // *segment.Data -> *Handle
+
+	// opMu is read-held while an operation modifies the real directory and write-held by
+	// Exclusive, so that an invariant monitor can look at a directory no operation is
+	// half-way through (operations are atomic for the monitor, as in the trace).
+	opMu sync.RWMutex
+}
+
+// Exclusive runs f while no Persist / Remove of this directory is in progress.
+func (r *RDir) Exclusive(f func()) {
+	r.opMu.Lock()
+	defer r.opMu.Unlock()
+	f()
 }
 
 // Handle tracks one Load: opened -> closed exactly once.
@@ -329,7 +341,9 @@ func (r *RDir) Persist(kind string, id uint64, w index.WriterTo, closeCh chan st
 			return f.Err
 		}
 	}
+	r.opMu.RLock()
 	err := r.Inner.Persist(kind, id, tw, closeCh)
+	r.opMu.RUnlock()
 	e := &Ev{Role: role, Op: "persist-end", Kind: kind, ID: id, Err: errStr(err), Ref: begin.Seq, Tee: append([]byte(nil), tw.tee.Bytes()...)}
 	if err == nil {
 		// what did the real directory leave there?
@@ -358,7 +372,9 @@ func (r *RDir) Remove(kind string, id uint64) error {
 		}
 		return f.Err
 	}
+	r.opMu.RLock()
 	err := r.Inner.Remove(kind, id)
+	r.opMu.RUnlock()
 	e := r.add(&Ev{Role: role, Op: "remove", Kind: kind, ID: id, Err: errStr(err)})
 	if r.Observe != nil {
 		r.Observe(e)
